@@ -49,6 +49,10 @@ CLAIMED = {
         text="Lean theorems over R against Mathlib's own densities: the model of each prior returns log(gaussianPDFReal), log(exponentialPDFReal), log(gammaPDFReal) (shape, rate), log(betaPDFReal), log(1/(ub-lb)), the log-uniform and log-normal densities written out, inside the support, and rejects (none = -inf posterior) outside it; the 'positive' flag rejects any vector with a negative entry; the log-prior of an accepted vector is the sum; the dispatch chain prior type -> method is regenerated from pid_interfaces.py by a translator and checked by decide. Tie: PIDInterface.check_prior vs the same Lean definitions run in Float (1e-12) over the seven families, boundary-near and out-of-support values, vectors of 1..4 parameters, flags; oracle scipy.stats logpdf; posterior at out-of-support theta through InferenceSetup.cost_function.",
         note=NOTE_COMMON + "scipy.special.gamma/beta values are inputs of the model (taken to compute Gamma and B); numpy exp/log vs libm within 1e-12; underflow of far-tail densities excluded.",
         technique="Lean 4 proof (identities against Mathlib pdfs; translator-regenerated dispatch table) + correspondence", ref="DESIGN.md §4 C16"),
+    "C15": dict(
+        text="Lean theorems: data_aligned (entry [t][m] of the array handed to the likelihood is row t of the column named by measurement m, any M, T, column order; with the reshape-only variant refuted at M=T=2); the likelihood is -(sum over trajectories, measurements, time points of |data - sim_n|^p)^(1/p) with sim_n run from trajectory n's own initial state, time points and (evaluation parameters overridden by its own condition only) (logLikelihood_formula); symmetric in the trajectories and in the (species, column) pairs (List.Perm); cost_history_free: when the defaults cover every parameter the working parameter vector, hence the cost, is independent of what earlier evaluations left in the shared array; -inf outside the prior's support. Tie: LL_data compared exactly, cost compared with the Lean model fed with the implementation's own simulations of the parameter vectors the model requests; oracle = the stated formula with fresh simulations, history and permutation checks on the real cost_function.",
+        note=NOTE_COMMON + "LSODA is a parameter of the model (C04); pandas column lookup and numpy transpose/reshape are modelled by index functions; stochastic cost only through the shared code paths.",
+        technique="Lean 4 proof (index arithmetic, permutation invariance, history-freeness) + correspondence + formula oracle", ref="DESIGN.md §4 C15"),
 }
 PENDING = {}
 def main():
